@@ -268,7 +268,7 @@ BASE_RESOURCES = [NAMESPACES, EVENTS, CRDS]
 class Request:
     __slots__ = ('idx', 'client', 'n', 't', 'method', 'path', 'query', 'payload', 'ctype', 'kind',
                  'plural', 'ns', 'name', 'sub', 'status', 'result_rv', 'landed_uid', 'fault', 't_done', 'watch',
-                 'g', 'g_done', 'prev_rv', 'lost', 't_end')
+                 'g', 'g_done', 'prev_rv', 'lost', 't_end', 'token')
 
     def __init__(self, **kw: Any) -> None:
         for k in self.__slots__:
@@ -397,6 +397,7 @@ class FakeKube:
         self.del_keep_finalizer = del_keep_finalizer
         self.del_bump_patch_rv = del_bump_patch_rv
         # Injection hooks.
+        self.revoked_tokens: set[str] = set()    # requests carrying one of these are answered 401 (checked when the response is produced)
         self.fault_fn: Callable[[Request], list[Fault] | None] | None = None
         self.lag_fn: Callable[[WatchStream, dict[str, Any]], float] | None = None
         self.post_yields = 0
@@ -597,6 +598,14 @@ class FakeKube:
             b['metadata'].pop('finalizers', None)
             self.write(plural, ns, name, b)
 
+    def revoke(self, token: str) -> None:
+        """The credentials stop being valid: new requests get 401; the open watch streams of that identity are closed by the server."""
+        self.revoked_tokens.add(token)
+        for s in self.streams:
+            if s.open and s.client.token == token:
+                s.resp.eof()
+                s.close()
+
     def compact(self, plural: str | None = None) -> None:
         """Forget the event history: watches resuming from older versions get 410."""
         for p in ([plural] if plural else list(self.log) + [r['plural'] for r in self.resources]):
@@ -653,7 +662,7 @@ class FakeKube:
         client.n += 1
         req = Request(idx=len(self.requests), client=client.name, n=client.n, t=self.now(), method=method,
                       path=u.path + ('?' + u.query if u.query else ''), query=q, payload=copy.deepcopy(payload),
-                      ctype=headers.get('Content-Type'), watch=(q.get('watch') == 'true'), g=next(GSEQ))
+                      ctype=headers.get('Content-Type'), watch=(q.get('watch') == 'true'), g=next(GSEQ), token=client.token)
         self._classify(req, u.path)
         self.requests.append(req)
         if client.dead:
@@ -706,6 +715,11 @@ class FakeKube:
         if client.dead:
             req.fault = (req.fault or '') + '|dead'
             raise ClientDead("client is dead")
+        if client.token is not None and client.token in self.revoked_tokens:
+            req.status = 401
+            req.t_end = self.now()
+            req.fault = (req.fault or '') + '|revoked:' + client.token
+            return Response(401, status_payload(401, 'Unauthorized', 'Unauthorized'))
         prev, self.writer = self.writer, client.name
         try:
             resp = self._route(client, req, method, u.path, q, payload, timeout)
